@@ -5,7 +5,10 @@ QubitCircuit.adjacent_gates.  Model: coq/Model/Route.v (`route fixed`, `adjacent
 
 An input is  {"fn": "tcs"|"adj", "setup": "linear"|"circular", "N": n,
               "gates": [[name, targets, controls, k], ...]}            (k: arg_value = k/8, or null)
-or the model-free  {"fn": "tcs", ..., "measurement": true}  (one routed gate followed by a measurement).
+or the model-free  {"fn": "tcs", ..., "measurement": true}  (one routed gate followed by a measurement),
+or  {"fn": "dev", "device": "LinearSpinChain"|"CircularSpinChain"|"SCQubits", "D": device size, "N": circuit width, "gates": ...}:
+the device's own topology_map(qc) on a circuit narrower than / as wide as the device (a circuit narrower than a ring occupies an
+open segment of it: routed like a linear chain of N qubits); a circuit WIDER than the device must be refused by transpile.
 """
 import glob
 import json
@@ -28,7 +31,8 @@ TRUSTED = [
     "Python ints modelled as Z, `%` by Z.modulo (positive modulus), `//` by Z.div; the while loops by fuel = distance "
     "(exhaustion proved impossible)",
     "LinearSpinChain / SCQubits / CircularSpinChain .topology_map are tied to to_chain_structure(linear/linear/circular) by "
-    "comparing their outputs on a sample of the same inputs (N <= 7)",
+    "comparing their outputs on a sample of the same inputs (N <= 7); as entry points of their own (fn = dev) they are compared "
+    "with the router model on the coupling the circuit's qubits have on the device (circuit narrower than / as wide as the device)",
     "only the gate attributes name/targets/controls/arg_value are modelled; classical controls, arg_label and style of "
     "a routed gate are dropped by the code and are outside the property",
 ]
@@ -138,12 +142,34 @@ PIPE_BASES = {"resolve": None, "resolve-csign": ["CSIGN", "RX", "RY", "RZ"], "re
               "resolve-sqrtswap": ["SQRTSWAP", "RX", "RY", "RZ"], "resolve-sqrtiswap": ["SQRTISWAP", "RX", "RY", "RZ"]}
 
 
+DEVICES = ["LinearSpinChain", "CircularSpinChain", "SCQubits"]
+_devs = {}
+
+
+def _device(name, D):
+    import warnings
+    if (name, D) not in _devs:
+        import qutip_qip.device as dev
+        with warnings.catch_warnings():
+            warnings.simplefilter("ignore")
+            _devs[(name, D)] = getattr(dev, name)(D)
+    return _devs[(name, D)]
+
+
+def dev_setup(inp):
+    """coupling of the N qubits a circuit occupies on the device (from the hardware, not from the code): the closing edge of a
+    ring couples qubits 0 and D-1, so only a circuit that fills the ring has its first and last qubit coupled"""
+    return "circular" if inp["device"] == "CircularSpinChain" and inp["N"] == inp["D"] else "linear"
+
+
 def prepare(inp):
     """the circuit actually handed to the router and its description as the model sees it.
     `form` selects how gates are constructed (by name / generic Gate object / class instance); `pipe` runs one
     library pass first (resolve_gates in some basis, or adjacent_gates) and routes ITS output.
     -> (effective input, circuit)   (raises when the input cannot be built)"""
     qc = _mk_circuit(inp)
+    if inp.get("fn") == "dev":
+        return dict(inp, setup=dev_setup(inp)), qc
     pipe = inp.get("pipe")
     if pipe:
         if pipe == "adj":
@@ -220,6 +246,9 @@ def run_impl(inp, prepared=None):
     try:
         if inp["fn"] == "adj":
             out = qc.adjacent_gates()
+        elif inp["fn"] == "dev":
+            dv = _device(inp["device"], inp["D"])
+            out = dv.topology_map(qc) if inp["N"] <= inp["D"] else dv.transpile(qc)
         else:
             out = to_chain_structure(qc, setup=inp["setup"])
     except Exception as e:
@@ -263,9 +292,15 @@ def oracle(inp, status, out_gates, out_circ, dense_max, in_circ=None):
     `inp` describes the circuit handed to the router (effective input); in_circ is that circuit when it cannot be
     rebuilt from inp (pipelines)."""
     N = inp["N"]
-    setup = "linear" if inp["fn"] == "adj" else inp["setup"]
+    setup = "linear" if inp["fn"] == "adj" else inp.get("setup")
     fails = []
     alias_fails = []
+    if inp["fn"] == "dev":
+        setup = dev_setup(inp)
+        if N > inp["D"]:
+            if status == "ok":
+                return [("device: a circuit wider than the device is not refused", out_gates[:6], "an error")]
+            return []
     if status != "ok":
         return [("router raised %s instead of routing / passing the gates through" % out_gates, status, "a routed circuit")]
     # (iii) index range and adjacency of every gate kind the router produces
@@ -339,6 +374,8 @@ def _cgate(g):
 
 
 def _cexpr(inp):
+    if inp["fn"] == "dev":      # the history-free router model on the coupling the circuit's qubits really have
+        inp = dict(inp, fn="tcs", setup=dev_setup(inp))
     if has_meas(inp):
         def cop(g):
             if g[0].startswith("M:"):
@@ -400,6 +437,8 @@ def one_gate(kind, a, b):
 def branch_of(inp):
     """which branch of the router the (single) handled gate takes"""
     N = inp["N"]
+    if inp["fn"] == "dev":
+        inp = dict(inp, fn="tcs", setup=dev_setup(inp))
     tags = []
     for g in inp["gates"]:
         if g[0].startswith("M:"):
@@ -639,6 +678,24 @@ def gen_inputs(ctx):
                 gates.insert(rng.randrange(len(gates) + 1),
                              ["M:" + rng.choice(["M0", "M1", "Z"]), [rng.randrange(N)], [], rng.choice([0, None])])
         add({"fn": fn, "setup": setup, "N": N, "gates": gates}, "random")
+    # the devices' own topology_map as entry point: circuits narrower than / as wide as the device (every ordered pair), and
+    # wider ones (refused by transpile)
+    for dn in DEVICES:
+        for D in range(2, ctx.n(6, 8) + 1):
+            for N in range(2, D + 1):
+                for a in range(N):
+                    for b in range(N):
+                        if a == b:
+                            continue
+                        for kind in (("CNOT", "ISWAP", "CSIGN", "SWAPalpha") if (N >= D - 1 or ctx.thorough) else ("CNOT", "ISWAP")):
+                            add({"fn": "dev", "device": dn, "D": D, "N": N, "gates": [one_gate(kind, a, b)]}, "device-width")
+            for N in (D + 1, D + 3):
+                add({"fn": "dev", "device": dn, "D": D, "N": N, "gates": [one_gate("CNOT", 0, N - 1)]}, "device-wide")
+                add({"fn": "dev", "device": dn, "D": D, "N": N, "gates": [one_gate("ISWAP", N - 1, 1), ["X", [0], [], None]]}, "device-wide")
+        for _ in range(ctx.n(40, 300)):
+            D = rng.choice([3, 4, 5, 6, 7])
+            N = rng.randrange(2, D + 1)
+            add({"fn": "dev", "device": dn, "D": D, "N": N, "gates": random_reuse_circuit(rng, N)}, "device-width")
     # malformed / degenerate stream: control == target, out-of-range qubit, empty circuit
     for N in (2, 3, 5):
         add({"fn": "tcs", "setup": "linear", "N": N, "gates": []}, "degenerate")
@@ -701,7 +758,9 @@ def correspond(ctx):
         # model vs implementation: exact gate lists
         if ring_edge_nonlist(orig_inp):
             corr.tally("class:ring-edge-nonlist-containers")   # repaired by fixes/C07-ring-edge-containers: checked like the rest
-        if st == "ok":
+        if inp["fn"] == "dev" and inp["N"] > inp["D"]:
+            corr.tally("device:wider-circuit:" + st)      # no routing to compare: the oracle demands the refusal
+        elif st == "ok":
             if mst != "ok" or mout != out:
                 corr.disagree(orig_inp, out, mout if mst == "ok" else "model: rejected", "routed gate list differs from model")
         else:
@@ -826,6 +885,14 @@ def search(ctx, broken):
                     for kind in ("CNOT", "SQRTSWAP", "SWAPalpha"):
                         for fn, setup in (("tcs", "linear"), ("tcs", "circular"), ("adj", "linear")):
                             cands.append({"fn": fn, "setup": setup, "N": N, "gates": [one_gate(kind, a, b)]})
+    for dn in DEVICES:
+        for D in range(2, 8):
+            for N in range(2, D + 2):
+                for a in range(N):
+                    for b in range(N):
+                        if a != b:
+                            for kind in ("CNOT", "ISWAP"):
+                                cands.append({"fn": "dev", "device": dn, "D": D, "N": N, "gates": [one_gate(kind, a, b)]})
     for N in range(3, 6):
         for a in range(N):
             for b in range(N):
